@@ -20,6 +20,8 @@ import (
 	"time"
 
 	"verif/engine/sched"
+	"verif/vrace"
+	"verif/vrt"
 )
 
 // Violation is the engine-independent form of a failing case.
@@ -91,6 +93,15 @@ type Property struct {
 	Delay                     bool // delay bounding for all scenarios
 	QuickSecs, ThoroughSecs   int  // per work item deadline
 	NotReached                []string
+	// RaceHB additionally explores every scenario in the race-detector build ("<binary>hb"): the same schedules,
+	// judged by the detector's happens-before analysis of the real memory accesses (work items "hb:<scenario>").
+	RaceHB *RaceHB
+}
+
+// RaceHB configures the happens-before race pass over explored schedules.
+type RaceHB struct {
+	QuickBound, ThoroughBound int
+	ThoroughUnbounded         bool
 }
 
 type finding struct {
@@ -146,6 +157,7 @@ func matchFinding(fs []finding, sig string) *finding {
 
 type workItem struct {
 	name   string
+	hb     bool
 	sc     *sched.Scenario
 	part   *Part
 	shard  int
@@ -203,6 +215,14 @@ func Main(p *Property) {
 			continue
 		}
 		items = append(items, workItem{name: sc.Name, sc: sc, nshard: 1})
+	}
+	if p.RaceHB != nil {
+		for _, sc := range p.Scenarios {
+			if sc.ThoroughOnly && *tier != "thorough" {
+				continue
+			}
+			items = append(items, workItem{name: "hb:" + sc.Name, hb: true, sc: sc, nshard: 1})
+		}
 	}
 	for _, pt := range p.Parts {
 		if pt.ThoroughOnly && *tier != "thorough" {
@@ -263,12 +283,22 @@ func Main(p *Property) {
 			defer wg.Done()
 			defer func() { <-sem }()
 			args := []string{"--worker", it.name, "--shard", fmt.Sprintf("%d/%d", it.shard, it.nshard), "--tier", *tier, "--secs", strconv.Itoa(dl), "--bound", strconv.Itoa(b)}
-			cmd := exec.Command(self, args...)
+			bin := self
+			var raceDir string
+			if it.hb {
+				bin = self + "hb"
+				raceDir, _ = os.MkdirTemp("", "verif-racelog")
+				defer os.RemoveAll(raceDir)
+			}
+			cmd := exec.Command(bin, args...)
 			procs := 1
 			if it.part != nil && it.part.Procs > 0 {
 				procs = it.part.Procs
 			}
 			cmd.Env = append(os.Environ(), "GOMAXPROCS="+strconv.Itoa(procs), "VERIF_SEED="+strconv.FormatInt(seed, 10))
+			if it.hb {
+				cmd.Env = append(cmd.Env, "GORACE=log_path="+filepath.Join(raceDir, "race")+" exitcode=0 halt_on_error=0", "VERIF_RACELOG="+filepath.Join(raceDir, "race"))
+			}
 			var stderr strings.Builder
 			cmd.Stderr = &stderr
 			done := make(chan struct{})
@@ -330,8 +360,24 @@ func runItem(p *Property, it workItem, tier string, seed int64, secs, bound int,
 	if tier == "quick" && it.sc.UnboundedThoroughOnly {
 		unbounded = false
 	}
+	if it.hb {
+		if !vrace.Enabled {
+			return &PartResult{Name: it.name, Engine: "S+HB", Error: "hb work items need the race-detector build of this binary"}
+		}
+		bound = p.RaceHB.QuickBound
+		unbounded = false
+		if tier == "thorough" {
+			bound, unbounded = p.RaceHB.ThoroughBound, p.RaceHB.ThoroughUnbounded
+		}
+		it.sc.Check = func(*vrt.Exec) *sched.Violation { return nil } // functional oracles are judged by the plain pass
+		sched.PostExec = raceChecker(os.Getenv("VERIF_RACELOG"))
+	}
 	r := sched.Explore(it.sc, sched.Options{MaxBound: bound, Unbounded: unbounded, Cache: p.Cache, Deadline: deadline, MaxViol: 8})
 	res := &PartResult{Name: it.name, Engine: "S", Detail: r, Error: r.Error}
+	if it.hb {
+		res.Engine = "S+HB"
+		res.Notes = []string{"race-detector build: the scheduler's hand-offs are hidden from the detector and the shims report the happens-before edges of the modelled primitives, so every explored schedule is judged for unsynchronised conflicting accesses"}
+	}
 	ex := true
 	for _, bs := range r.Bounds {
 		res.Traces += int64(bs.Executions)
@@ -361,10 +407,67 @@ func runItem(p *Property, it workItem, tier string, seed int64, secs, bound int,
 	}
 	for _, v := range r.Violations {
 		raw, _ := json.Marshal(v)
-		res.Violations = append(res.Violations, &Violation{Part: it.name, Engine: "S", Signature: it.name + "|" + v.Signature, Message: v.Message, Replay: raw})
+		sig := it.name + "|" + v.Signature
+		if it.hb {
+			sig = v.Signature // the same race is one finding, whichever scenario shows it
+		}
+		res.Violations = append(res.Violations, &Violation{Part: it.name, Engine: res.Engine, Signature: sig, Message: v.Message, Replay: raw})
 	}
 	res.WallS = time.Since(t0).Seconds()
 	return res
+}
+
+// raceChecker returns the per-execution oracle of the race-detector build: the detector appends its reports to
+// <base>.<pid>; whatever appeared since the previous execution was caused by this one.
+func raceChecker(base string) func(e *vrt.Exec) []*sched.Violation {
+	path := fmt.Sprintf("%s.%d", base, os.Getpid())
+	var off int64
+	return func(e *vrt.Exec) []*sched.Violation {
+		fi, err := os.Stat(path)
+		if err != nil || fi.Size() <= off {
+			return nil
+		}
+		b, err := os.ReadFile(path)
+		if err != nil || int64(len(b)) <= off {
+			return nil
+		}
+		text := string(b[off:])
+		off = int64(len(b))
+		var out []*sched.Violation
+		for _, rep := range strings.Split(text, "==================") {
+			if !strings.Contains(rep, "DATA RACE") {
+				continue
+			}
+			out = append(out, &sched.Violation{Signature: "data-race|" + strings.Join(raceFrames(rep), "|"), Message: "the race detector reported unsynchronised conflicting accesses in this schedule:\n" + tail(strings.TrimSpace(rep), 2500)})
+		}
+		return out
+	}
+}
+
+// raceFrames extracts, for each of the two accesses of a report, the innermost function of hive.go.
+func raceFrames(rep string) []string {
+	var frames []string
+	lines := strings.Split(rep, "\n")
+	inAccess := false
+	for _, l := range lines {
+		tl := strings.TrimSpace(l)
+		switch {
+		case strings.HasPrefix(tl, "Read at"), strings.HasPrefix(tl, "Write at"), strings.HasPrefix(tl, "Previous read at"), strings.HasPrefix(tl, "Previous write at"),
+			strings.HasPrefix(tl, "Atomic"), strings.HasPrefix(tl, "Previous atomic"):
+			inAccess = true
+		case tl == "" || strings.HasPrefix(tl, "Goroutine"):
+			inAccess = false
+		case inAccess && strings.Contains(tl, "iotaledger/hive.go/") && strings.HasSuffix(tl, ")") && !strings.HasPrefix(tl, "/"):
+			f := tl[strings.Index(tl, "iotaledger/hive.go/")+len("iotaledger/hive.go/"):]
+			if i := strings.LastIndex(f, "("); i > 0 {
+				f = f[:i]
+			}
+			frames = append(frames, f)
+			inAccess = false
+		}
+	}
+	sort.Strings(frames)
+	return frames
 }
 
 func report(p *Property, tier string, seed int64, results []*PartResult, wall float64) int {
@@ -511,6 +614,29 @@ func doReplay(p *Property, path string) int {
 	if err := json.Unmarshal(b, &rf); err != nil {
 		fmt.Fprintln(os.Stderr, err)
 		return 2
+	}
+	if strings.HasPrefix(rf.Part, "hb:") {
+		if !vrace.Enabled {
+			self, _ := os.Executable()
+			dir, _ := os.MkdirTemp("", "verif-racelog")
+			defer os.RemoveAll(dir)
+			cmd := exec.Command(self+"hb", "--replay", path)
+			cmd.Env = append(os.Environ(), "GOMAXPROCS=1", "GORACE=log_path="+filepath.Join(dir, "race")+" exitcode=0 halt_on_error=0", "VERIF_RACELOG="+filepath.Join(dir, "race"))
+			cmd.Stdout, cmd.Stderr = os.Stdout, os.Stderr
+			if err := cmd.Run(); err != nil {
+				if ee, ok := err.(*exec.ExitError); ok {
+					return ee.ExitCode()
+				}
+				fmt.Fprintln(os.Stderr, "replay error:", err)
+				return 2
+			}
+			return 0
+		}
+		rf.Part = strings.TrimPrefix(rf.Part, "hb:")
+		sched.PostExec = raceChecker(os.Getenv("VERIF_RACELOG"))
+		for _, sc := range p.Scenarios {
+			sc.Check = func(*vrt.Exec) *sched.Violation { return nil }
+		}
 	}
 	for _, sc := range p.Scenarios {
 		if sc.Name == rf.Part {
